@@ -103,3 +103,59 @@ MANIFEST_TEXT["C08"] = {
     "level_note": "Exhaustive up to the stated length for one batch shape; beyond that sampled. Trusted: model, cell comparison.",
     "technique": "offline exactly-once checker over recorded ingest/flush/restart histories (bounded-exhaustive enumeration of real executions)",
 }
+
+META["C09"] = {
+    "level": "fault_enumeration",
+    "rule": "Crash model: effects reach the disk in program order, a crash keeps a prefix of the effect sequence, a temp file written but not yet synced may keep any prefix of its content; renames/removes are atomic. The fs-effect hook copies the database directory at every primitive effect boundary of FileBlobWriter (mkdir/create/write/sync/rename/remove) while short histories (3-8 ops over ingest->A, ingest->B, ingest->A+B, force_flush with combine factor 1/999/0/4, restart; io_threads 1/4) run: one crash image per boundary, plus 5 truncations of the temp file after each write effect. Every image (quick: an evenly spread subset of at most 60 exact images per history plus all truncations) is opened by a child process running the real recovery; oracle: open terminates (progress rule), content == model(acknowledged) or model(acknowledged + the one in-flight request, whole across its tables), no table listed twice, reopening again gives the same content, and for a sample a crash at effect 1/2 of the recovery followed by a reopen gives the same content. One evaluation = one child open judged. Distinct non-trivial = distinct (effect kind, file role wal/partition/meta, before/after, truncation class, during ingest/flush/recovery) on which recovery succeeded.",
+    "budget": {"quick": 200, "thorough": 1800},
+    "exhaustive": {"quick": False, "thorough": True},
+    "shards": 16,
+    "floors": {"quick": {"evaluations": 3000, "distinct": 25, "counters": {"crash_images_captured": 1500, "crashes_during_recovery": 10}}},
+    "assumptions": COMMON_ASSUMPTIONS + ["Prefix crash model as stated in the rule; directory-entry durability and torn sectors are out of scope (the code never fsyncs a directory).", "A single client issues the workload, so at most one request is in flight at any crash point."],
+}
+MANIFEST_TEXT["C09"] = {
+    "level_text": "Fault enumeration on the real code: the file-system effect hook turns every primitive effect boundary of every history into a crash image (plus truncated-temp-file variants); each image is recovered by a child process running LocustDB::new and judged for termination, atomic content (acknowledged, or acknowledged plus the whole in-flight request), no duplicates and idempotence (second open, crash during recovery). Thorough tier evaluates every image of every history.",
+    "design_ref": "DESIGN.md section 3, C09",
+    "level_note": "Assumes the prefix crash model; one in-flight request; histories are sampled (seeded) but every effect boundary of a history is enumerated.",
+    "technique": "fault injection by crash-image enumeration at hooked file-system effect boundaries + child-process recovery oracle",
+}
+META["C10"] = {
+    "level": "exploration",
+    "rule": "(1) Deterministic schedule exploration: for every sync-point label of flush/compaction/load (hook) and occurrence k, a flush+compaction of a 2-table database (two prepared partitions + buffered rows per table) is run with a gate at (label,k): when the flushing thread arrives there, a query battery / a second ingestion + battery / evict_cache + battery is started from another thread and the flush is held until that operation finished or 400 ms passed; then a final quiescent battery. combine factor {1,999} x mem_lz4 (quick; 6 variants thorough). (2) Randomised stress: one writer per table (3 tables, 40 requests each quick), 4 queriers, 1 flusher looping force_flush, an evicter in every second run, tiny WAL limits, random 0.2-2 ms delays at 30% of all sync points; 64 runs quick. Every ingestion request carries uids request*2^20+row. Offline checker over the recorded history (call/return times from one monotonic clock): every answer must equal the answer on concat(requests 1..j) for some j with acked_before(call) <= j <= started_before(return) (uids, aggregate, absent column, partially present column, filter, ORDER BY..LIMIT variants), and observations must be prefix-ordered in real time. One evaluation = one observation judged. Distinct non-trivial = distinct (gate label#occurrence, injected op, factor, lz4, overlapped|serialised) that fired, plus distinct stress configurations.",
+    "budget": {"quick": 150, "thorough": 1800},
+    "floors": {"quick": {"evaluations": 20000, "distinct": 100, "counters": {"injected_overlapped": 80, "stress_observations": 10000, "stress_distinct_prefixes_observed": 500, "observations_inside_flush": 5000},
+                         "sets": {"gate_points_hit": ["flush:after_freeze#1", "flush:table_batched#1", "flush:partitions_persisted#1", "compact:before_swap#1", "compact:after_swap#1", "compact:prepared#1", "flush:metastore_persisted#1", "flush:orphans_deleted#1"]}}},
+    "assumptions": COMMON_ASSUMPTIONS + ["One writer thread per table, so the request order of a table is known; several tables collide on the global ingestion lock and on flushes.", "Interleavings inside a critical section that no sync point separates are reached only by the randomised stress."],
+}
+MANIFEST_TEXT["C10"] = {
+    "level_text": "Offline prefix-consistency checker over client-boundary histories of the real database under (a) every placement of a query / ingestion / eviction at each hooked step boundary of a concurrent flush+compaction and (b) randomised multi-threaded stress with injected delays. Unique uids per request make every answer identify the prefix it observed; bounds come from real-time order of acknowledged/started requests.",
+    "design_ref": "DESIGN.md section 3, C10",
+    "level_note": "Schedules = placed sync points + random delays; not exhaustive over all interleavings. Known finding: eviction of not-yet-persisted partitions (meta_store.rs:143).",
+    "technique": "runtime history recording + offline prefix-chain (append-only linearizability) checker, sync-point schedule enumeration, delay injection",
+}
+META["C13"] = {
+    "level": "exploration",
+    "rule": "Random histories (4-13 ops quick) over {ingest(batch with an arbitrary subset of a 19-name pool: case pairs a/A, UPPER/upper, non-ASCII, names of 75 bytes differing in the last byte, names sorting before/after all others, column_name / column_names / timestamp / name, a name with a space), force_flush, restart} on up to three tables (incl. the case pair t1/T1), combine factor {1,0,4} and sub-partition size {1 byte, 200, default} so that compaction and multi-file partitions carry the columns. Checked after (almost) every op - after a restart only sometimes, so that ingestion hits the lazily initialised name set first: SELECT * has exactly the ever-ingested column names, each once, with every cell equal to the model (NULL where a batch did not mention the column); _meta_tables lists every table once; _meta_columns_<t> lists every column once and nothing else; search_column_names agrees. One evaluation = one table / catalogue / search comparison.",
+    "budget": {"quick": 120, "thorough": 1200},
+    "floors": {"quick": {"evaluations": 15000, "distinct": 400, "counters": {"new_name_first_seen_after_restart_before_any_query": 300, "flushes": 500, "restarts": 300}}},
+    "assumptions": COMMON_ASSUMPTIONS,
+}
+MANIFEST_TEXT["C13"] = {
+    "level_text": "Model-based history monitor: after every operation of random ingest/flush/restart histories with arbitrary column subsets from a hostile name pool, the set of column names returned by SELECT *, the catalogue tables and search_column_names are compared with the model, and every cell with the supplied value or NULL.",
+    "design_ref": "DESIGN.md section 3, C13",
+    "level_note": "Histories sampled (seeded); name pool fixed.",
+    "technique": "runtime differential monitor of catalogue and table content against a logical model over ingest/flush/compaction/restart histories",
+}
+META["C18"] = {
+    "level": "exploration",
+    "rule": "Histories of 10-40 ops (quick; up to 200 thorough) over {ingest into one of 3-4 tables (one has a name that needs sanitising), force_flush} with combine factor {0,1,4,999}, sub-partition size {1 byte, 4 KiB, default}, io_threads {1,4}, compaction threads {1,3}. At every quiescent point (flush returned, nothing in flight, metrics logger off): recursive listing of the database directory == {meta} + {tables/<sanitised table>/<id>_<key>.part for every (partition, sub-partition) of the catalogue hook}; accounted WAL size == 0; conservation: files renamed into place minus files removed according to the fs-effect log == listing. Plus 8 runs where max_wal_size_bytes in {0,100,1000} holds ingestion back until the background flush has run (all requests must complete). One evaluation = one of these comparisons.",
+    "budget": {"quick": 120, "thorough": 1200},
+    "floors": {"quick": {"evaluations": 8000, "distinct": 100, "counters": {"ingests_completed_under_wal_limit": 40, "ingests_that_had_to_wait_for_a_flush": 4}}},
+    "assumptions": COMMON_ASSUMPTIONS + ["Quiescence = force_flush returned and the single client issued nothing else."],
+}
+MANIFEST_TEXT["C18"] = {
+    "level_text": "Quiescent-point invariant monitor: after every completed flush the real directory listing must equal the file set derived from the catalogue (hook), the accounted WAL size must be zero and the created-minus-removed balance of the fs-effect log must equal the listing; blocked ingestion must resume.",
+    "design_ref": "DESIGN.md section 3, C18",
+    "level_note": "Trusted: catalogue accessor hook and the filename wrappers (the code's own naming functions).",
+    "technique": "runtime invariant monitor at quiescent points (file-set equality, conservation over the fs-effect log)",
+}
